@@ -181,6 +181,37 @@ print("ok" if out == want and reads[0] == 4 else
       "DEFECT: y = (x[n] + 2x[n-1] + 3x[n-2]) / g[n] gives %s, %d reads of g "
       "for 4 samples" % ([str(v) for v in out], reads[0]))
 """),
+  ("15 C02 hub.real + hub.imag reads behind the hub's copies", r"""
+reads = [0]
+def src():
+    for i in range(100):
+        reads[0] += 1; yield complex(i, -i)
+h = thub(src(), 2)
+out = (h.real + h.imag).take(5)
+print("ok" if out == [0.] * 5 and reads[0] == 5 else
+      "DEFECT: re + im of (i - i j) gives %r, %d source reads for 5 outputs"
+      % (out, reads[0]))
+"""),
+  ("16 C06 f(g) with a time-varying g uses g once per term without a copy", r"""
+reads = [0]
+def src():
+    i = 1
+    while True:
+        reads[0] += 1; i += 1; yield Fraction(i)
+f = 1 + z ** -1 + z ** -2
+try:
+    h = f(Stream(src()) * z)        # 1 + z^-1 / c[n] + z^-2 / c[n]^2
+    out = h([Fraction(1)] * 4, zero=Fraction(0)).take(4)
+except Exception as exc:
+    print("DEFECT: raised %s" % type(exc).__name__)
+    raise SystemExit
+c = [Fraction(i) for i in (2, 3, 4, 5)]
+want = [1, 1 + 1 / c[1], 1 + 1 / c[2] + 1 / c[2] ** 2,
+        1 + 1 / c[3] + 1 / c[3] ** 2]
+print("ok" if out == want and reads[0] == 4 else
+      "DEFECT: outputs %s (expected %s), %d reads of c for 4 samples"
+      % ([str(v) for v in out], [str(v) for v in want], reads[0]))
+""", "6daa97e~1"),
 ]
 
 
@@ -204,10 +235,23 @@ def main():
                           "audiolazy"], stdout=subprocess.PIPE, check=True)
     subprocess.run(["tar", "-x", "-C", old], input=tar.stdout, check=True)
     bad = 0
-    for title, code in SNIPPETS:
-      a, b = run(old, code), run(REPO, code)
-      print("%s\n    pinned snapshot : %s\n    repaired tree   : %s"
-            % (title, a, b))
+    for entry in SNIPPETS:
+      title, code = entry[0], entry[1]
+      base, label = old, "pinned snapshot "
+      if len(entry) > 2:
+        # a defect that an earlier defect hides on the pinned snapshot is
+        # shown against the parent of its own fix commit instead
+        base = os.path.join(tmp, "at-" + entry[2].replace("~", "-"))
+        os.makedirs(base)
+        tar = subprocess.run(["git", "-C", REPO, "archive", entry[2],
+                              "audiolazy"], stdout=subprocess.PIPE,
+                             check=True)
+        subprocess.run(["tar", "-x", "-C", base], input=tar.stdout,
+                       check=True)
+        label = "before its fix  "
+      a, b = run(base, code), run(REPO, code)
+      print("%s\n    %s: %s\n    repaired tree   : %s"
+            % (title, label, a, b))
       if not a.startswith("DEFECT") or b != "ok":
         bad += 1
     return 1 if bad else 0
